@@ -10,6 +10,24 @@ CHECKS = {
    text="Generated operation histories (random, model-aimed, plus every history of length<=3 [quick] / <=4 [thorough] over a 24-step alphabet) are run against rib.RIB and against server.Modify/Get over in-process streams; after every step the installed entries must equal (a) the pure fold of the acknowledged operations in acknowledgement order and (b) the relation model, and held-set / counters must match. Search, not proof: it shows the property on the explored histories and finds counterexamples, shrunk to a replay file.",
    note="Trusted: the reference model in harness/internal/model, the generator's notion of schema-valid payloads, rib.Concrete*Proto for reading L1 state (cross-checked by C07). Exhaustive only for the stated small scopes.",
    design="DESIGN.md §4 C01"),
+ "C02": dict(
+   technique="model-based property testing: every arrival order of small dependency graphs (exhaustive) + rapid-drawn larger graphs, against a relation model with completeness and closure invariants",
+   level="exploration",
+   text="Operations of dependency graphs (NH <- NHG <- IPv4/IPv6/MPLS, cross-instance references, dependencies deleted/re-added/never arriving, doomed held REPLACEs) are applied in every arrival order for subsets of a 15-op pool (<=4 ops quick, <=5 thorough) and in random orders for larger generated graphs, with forward references on and off, against rib.RIB and the server streams. After every step: each acknowledged op must be resolvable at its turn, no held op may be resolvable (held-id hook), no installed entry may dangle, unresolved ops must be FAILED at once when forward references are disallowed.",
+   note="Trusted: reference model; the verif-tagged held-id hook. Exhaustive only for the stated pool/size; larger graphs are sampled.",
+   design="DESIGN.md §4 C02"),
+ "C03": dict(
+   technique="model-based property testing with a derived-referrers oracle (counter hook == referrers, DELETE verdict == referenced) over retarget/flush histories with a delete-everything epilogue",
+   level="exploration",
+   text="Histories that create, retarget, delete and flush references (rapid + every history of length<=3/4 over a 22-step retarget alphabet) are followed by a generated epilogue that tries to delete every group and next-hop top-down and bottom-up. After every operation each reference counter (hook) must equal the number of installed referrers derived from the model state and every DELETE must be FAILED exactly when the model says the target is referenced.",
+   note="Trusted: reference model's derivation of referrers from installed entries; verif-tagged counter hook. Sampled beyond the exhaustive small scope.",
+   design="DESIGN.md §4 C03"),
+ "C16": dict(
+   technique="model-based property testing: a folding consumer of the hook notifications compared with RIBContents after every step, over generated histories x configuration orders",
+   level="exploration",
+   text="C01-style histories (held-op resolution, single-NI and all-NI flushes) are run under four configuration orders of hook registration vs network-instance creation (rib API and server options, runtime AddNetworkInstance). A consumer folds post-change notifications and must equal RIBContents in every NI after every step; resolved-entry notifications are counted exactly (awaited by goroutine state, not time), must contain/lack the announced key and must be unchanged at the end of the history.",
+   note="Trusted: obs conversion via rib.Concrete*Proto for both sides of the comparison; goroutine-dump based quiescence for the asynchronous resolved-entry hook.",
+   design="DESIGN.md §4 C16"),
 }
 NOT_YET = {}
 
